@@ -354,6 +354,14 @@ func (t *Transaction) insert(handle Handle, oplog, namespace *mongokit.Collectio
 // document if it is missing. The returned result will contain the matched
 // and modified or upserted document.
 func (t *Transaction) Replace(handle Handle, query, sort, repl bsonkit.Doc, upsert bool) (*Result, error) {
+	return t.replaceChecked(handle, query, sort, repl, upsert, nil)
+}
+
+// replaceChecked is like Replace but hands the result to check before the changes become
+// part of the transaction: if check fails, its error is returned and nothing
+// is changed. The check runs under the lock of the transaction, so the writes
+// of other users of a shared transaction are never affected.
+func (t *Transaction) replaceChecked(handle Handle, query, sort, repl bsonkit.Doc, upsert bool, check func(*Result) error) (*Result, error) {
 	// acquire write lock
 	t.mutex.Lock()
 	defer t.mutex.Unlock()
@@ -398,6 +406,14 @@ func (t *Transaction) Replace(handle Handle, query, sort, repl bsonkit.Doc, upse
 	res, err := t.replace(handle, oplog, namespace, query, repl, sort, upsert)
 	if err != nil {
 		return nil, err
+	}
+
+	// let the caller reject the result
+	if check != nil {
+		err = check(res)
+		if err != nil {
+			return nil, err
+		}
 	}
 
 	// set catalog and flag
@@ -455,6 +471,14 @@ func (t *Transaction) replace(handle Handle, oplog, namespace *mongokit.Collecti
 // it is missing. The returned result will contain the matched and modified or
 // upserted document.
 func (t *Transaction) Update(handle Handle, query, sort, update bsonkit.Doc, skip, limit int, upsert bool, arrayFilters bsonkit.List) (*Result, error) {
+	return t.updateChecked(handle, query, sort, update, skip, limit, upsert, arrayFilters, nil)
+}
+
+// updateChecked is like Update but hands the result to check before the changes become
+// part of the transaction: if check fails, its error is returned and nothing
+// is changed. The check runs under the lock of the transaction, so the writes
+// of other users of a shared transaction are never affected.
+func (t *Transaction) updateChecked(handle Handle, query, sort, update bsonkit.Doc, skip, limit int, upsert bool, arrayFilters bsonkit.List, check func(*Result) error) (*Result, error) {
 	// acquire write lock
 	t.mutex.Lock()
 	defer t.mutex.Unlock()
@@ -502,6 +526,14 @@ func (t *Transaction) Update(handle Handle, query, sort, update bsonkit.Doc, ski
 	res, err := t.update(handle, oplog, namespace, query, update, sort, upsert, skip, limit, arrayFilters)
 	if err != nil {
 		return nil, err
+	}
+
+	// let the caller reject the result
+	if check != nil {
+		err = check(res)
+		if err != nil {
+			return nil, err
+		}
 	}
 
 	// set catalog and flag
@@ -557,6 +589,14 @@ func (t *Transaction) update(handle Handle, oplog, namespace *mongokit.Collectio
 // limit may be supplied to modify the result. The returned result will contain
 // the matched documents.
 func (t *Transaction) Delete(handle Handle, query, sort bsonkit.Doc, skip, limit int) (*Result, error) {
+	return t.deleteChecked(handle, query, sort, skip, limit, nil)
+}
+
+// deleteChecked is like Delete but hands the result to check before the changes become
+// part of the transaction: if check fails, its error is returned and nothing
+// is changed. The check runs under the lock of the transaction, so the writes
+// of other users of a shared transaction are never affected.
+func (t *Transaction) deleteChecked(handle Handle, query, sort bsonkit.Doc, skip, limit int, check func(*Result) error) (*Result, error) {
 	// acquire write lock
 	t.mutex.Lock()
 	defer t.mutex.Unlock()
@@ -592,6 +632,14 @@ func (t *Transaction) Delete(handle Handle, query, sort bsonkit.Doc, skip, limit
 	res, err := t.delete(handle, oplog, namespace, query, sort, skip, limit)
 	if err != nil {
 		return nil, err
+	}
+
+	// let the caller reject the result
+	if check != nil {
+		err = check(res)
+		if err != nil {
+			return nil, err
+		}
 	}
 
 	// set catalog and flag
@@ -1083,17 +1131,6 @@ func (t *Transaction) Catalog() *Catalog {
 	defer t.mutex.RUnlock()
 
 	return t.catalog
-}
-
-// reset will set the transaction back to a catalog it had before. As catalogs
-// are never modified in place this undoes every change made since.
-func (t *Transaction) reset(catalog *Catalog, dirty bool) {
-	// acquire write lock
-	t.mutex.Lock()
-	defer t.mutex.Unlock()
-
-	t.catalog = catalog
-	t.dirty = dirty
 }
 
 // Clean will clean the oplog and only keep up to the specified amount of events
